@@ -50,6 +50,11 @@ def handle : List String → Option String
   | ["cornerrule", dim] => do
     let d ← dim.toNat?
     pure (" | ".intercalate ((List.range (2 ^ d)).map fun q => showRats (cornerPt d q) ++ " : " ++ showRat (cornerW d q)))
+  | "sig" :: rest => do
+    -- signature of an image: R C dy dx, pixels row-major
+    let ((r, c, dy, dx, a), _) ← (do
+      let r ← P.nat; let c ← P.nat; let dy ← P.rat; let dx ← P.rat; let a ← P.list P.rat; pure (r, c, dy, dx, a)).run rest
+    pure (" | ".intercalate ((sigOf r c dy dx (fn a)).map fun t => showRats [t.1, t.2.1, t.2.2]))
   | "emd" :: rest => do
     let ((v, dy, dx, dr, dc), _) ← (do
       let v ← P.rat; let dy ← P.rat; let dx ← P.rat; let dr ← P.int; let dc ← P.int; pure (v, dy, dx, dr, dc)).run rest
